@@ -73,6 +73,20 @@ class Body:
         if k == 'goto':
             return [('goto', t['target'])]
         if k == 'switch':
+            d = t['discr']
+            if d['k'] in ('copy', 'move') and not d['p']['pr']:
+                # `_n = const C; switchInt(move _n)` within the same block
+                for st in reversed(self.blocks[b]['stmts']):
+                    if st['k'] == 'assign' and st['p']['l'] == d['p']['l'] and not st['p']['pr']:
+                        if st['r']['k'] == 'use' and st['r']['a']['k'] == 'const':
+                            d = st['r']['a']
+                        break
+            if d['k'] == 'const' and d.get('val') is not None:
+                # a switch on a literal (cfg!(debug_assertions), `&& false`): only the matching edge is feasible
+                for v, tg in t['arms']:
+                    if v == d['val']:
+                        return [(v, tg)]
+                return [('otherwise', t['otherwise'])]
             e = [(v, tg) for v, tg in t['arms']]
             e.append(('otherwise', t['otherwise']))
             return e
